@@ -103,6 +103,22 @@ def r2_fraction(rep, ctx):
             rep.bad("C18.R2", "Fraction.%s" % name, "Fraction.%s is missing" % name, fn=ci.methods.get("__init__"))
             continue
         rep.check(pred(b), "C18.R2", "Fraction.%s" % name, "%s applies the matching exact operation" % name, "Fraction.%s is `%s`, which is not the matching operation on the wrapped exact fraction" % (name, "; ".join(b)[:160]), fn=fn)
+    # normalisation: the scaling loop stops when the numerator is within SMALL of round(numerator),
+    # so the conversion to an integer after it must be that same rounding
+    init = ci.methods.get("__init__")
+    loops = [w for w in ast.walk(init.node) if isinstance(w, ast.While)]
+    if len(loops) != 1:
+        raise AnalysisError("Fraction.__init__: the scaling loop was not found")
+    cond = ast.unparse(loops[0].test).replace(" ", "")
+    after = None
+    body = init.node.body
+    for st in ast.walk(init.node):
+        if isinstance(st, ast.Assign) and isinstance(st.targets[0], ast.Name) and st.targets[0].id == "a" and isinstance(st.value, ast.Call) and isinstance(st.value.func, ast.Name) and st.value.func.id in ("round", "int", "floor", "ceil", "trunc") \
+                and st.lineno > loops[0].end_lineno:
+            after = st
+    ok = cond == "abs(a-round(a))>SMALL" and after is not None and ast.unparse(after.value).replace(" ", "") == "round(a)"
+    rep.check(ok, "C18.R2", "Fraction.__init__:rounding", "the numerator is scaled until it is within SMALL of round(a) and then converted with that same round(a)",
+              "Fraction.__init__ scales the numerator under `%s` but converts it with `%s`: a scaled value just below an integer (0.57*100 = 56.99999999999999) is truncated" % (cond, ast.unparse(after.value) if after is not None else None), fn=init)
     # number operands are lifted before use
     for name in ("__add__", "__mul__", "__truediv__", "__mod__"):
         fn, b = body_txt(name)
